@@ -19,6 +19,8 @@ POOL = [
     ("multijunction", ["multijunction", "underlap"]),
     # multi-part lines that take part in node defects only once merged by the first pass (object caches must not go stale)
     ("multipart_nodes", ["mls_vnode", "mls_multijunction", "mls_vnode_start"]),
+    # ... and in defects that single-part rows find through their trace candidates (candidate selection must follow the fixed frame)
+    ("multipart_candidates", ["mls_underlap", "mls_stacked", "mls_multicross", "mls_overlap"]),
 ]
 
 
@@ -79,13 +81,15 @@ def run_history(hist):
 
 def s13_histories(ctx):
     import_fractopo()
-    res = StreamResult("S13-histories", rule="pool of 9 frames containing every defect kind (incl. multi-part lines that form V-nodes / junctions once merged); ALL ordered pairs of fresh validations (81, exhaustive) + random "
+    res = StreamResult("S13-histories", rule="pool of 10 frames containing every defect kind (incl. multi-part lines that form V-nodes / junctions, or take part in snap / stacking / crosscut defects of other rows, once merged); ALL ordered pairs of fresh validations (100, exhaustive) + every frame validated / its output re-validated / the first object re-run + random "
                        "histories of new / re-run-same-object / re-validate-earlier-output operations, all in one process; each step compared with the result "
                        "of validating that frame once in a fresh interpreter; non-trivial = history in which two different frames are validated")
     rng = random.Random(f"{ctx.seed}:S13")
     n = len(POOL)
     L = budget(ctx.tier, 4, 6)
     hists = [[("new", i), ("new", j)] for i in range(n) for j in range(n)]
+    # every frame: validated, then its OUTPUT validated again, then the first object run again (idempotence, exhaustive over the pool)
+    hists += [[("new", i), ("reval", 0), ("rerun", 0)] for i in range(n)]
     if ctx.tier == "thorough":
         hists += [[("new", i), ("new", j), ("new", k)] for i, j, k in itertools.product(range(n), repeat=3)]
     for _ in range(budget(ctx.tier, 120, 1500)):
